@@ -61,10 +61,12 @@ PROPS = {
         'not_covered': ['that clvmr implements each opcode (dispatch is outside the tables)', 'OriginalDialect / ChiaDialect flag selection in stage_0'],
     },
     'C05': {
+        'e3_always': ['determinism'],
+        'e3': ['determinism'],
         'kani': [{'name': 'guard_restores_mode', 'complete': True, 'claim': 'for every (initial, a, b, early-return) the per-thread integer-conversion mode after nested NewStyleIntConversion guards equals the mode before them'}],
         'mechanical': [{'name': 'int_mode_frame', 'fn': mech.frame_int_mode, 'claim': 'the mode cell is written only by the guard constructor and its Drop'}],
         'decided': 'one clause only: the per-thread integer-conversion mode is restored by the RAII guard on every exit path (success, early error return), so an earlier compilation in another dialect or a failed one cannot leak its mode',
-        'not_covered': ['independence from the gensym counter ARGNAME_CTR (relational, whole compiler)', 'independence from HashMap iteration order / hash seeds', 'threads', 'byte-identical output as such'],
+        'not_covered': ['independence from the gensym counter ARGNAME_CTR, from HashMap iteration order and from the compiling thread (relational properties of the whole compiler over two runs): bounded stand-in only (E3: 72 programs compiled again after other, also failed, compilations and on a second thread; bytes and user-visible symbols compared)', 'hash seeds across processes'],
     },
     'C18': {
         'units': ['deps'],
